@@ -498,6 +498,37 @@ def _nodes_ground_case(case, tier, seed):
     return res
 
 
+def _f0_api_case(case, tier, seed):
+    """ground (concrete): Xray.f0 for elements and ions -- vector calls agree with scalar calls, the caller's array is
+    not modified, a second call gives the same answer, values beyond Q = 24 pi are NaN every time"""
+    import periodictable as pt
+    res = dict(paths=1, claims=0, discharged=0, queries=0, distinct=0, violations=[], inconclusive=[], samples=[], solver_s=0.0, complete=True)
+    atoms = [pt.H, pt.H.ion[-1], pt.O, pt.O.ion[-2], pt.Fe, pt.Fe.ion[2], pt.Fe.ion[3], pt.U, pt.U.ion[6], pt.Si, pt.C]
+    qs = [0.0, 1.5, 3.0, 7.0, 20.0, 75.0, 80.0]
+    for atom in atoms:
+        for make in (lambda: np.array(qs), lambda: list(qs), lambda: np.array(qs, dtype=np.float32), lambda: np.array([[0.0, 3.0], [7.0, 80.0]])):
+            Q = make()
+            before = np.array(Q, dtype=float).copy()
+            r1 = np.array(atom.xray.f0(Q), dtype=float)
+            r2 = np.array(atom.xray.f0(Q), dtype=float)
+            res['claims'] += 1
+            ok = np.array_equal(np.array(Q, dtype=float), before) and np.array_equal(r1, r2, equal_nan=True) and r1.shape == before.shape
+            if ok:
+                for i, q in enumerate(before.flat):
+                    sc = float(atom.xray.f0(float(q)))
+                    v = float(r1.flat[i])
+                    ok = ok and ((sc != sc and v != v) or abs(v - sc) <= 1e-6 * max(1.0, abs(sc)))
+                    ok = ok and ((v != v) == (q > 24 * math.pi))
+            if ok:
+                res['discharged'] += 1
+            elif len(res['violations']) < 5:
+                res['violations'].append(dict(case=case.name, claim='f0_vector_call[%s]' % atom, values={'Q': before.tolist()},
+                                              observed=[repr(r1.tolist())[:120], repr(r2.tolist())[:120]], how='concrete'))
+    res['queries'] = res['distinct'] = res['claims']
+    res['samples'] = [dict(atoms=len(atoms))]
+    return res
+
+
 def _wrap(fn):
     def h(E):
         try:
@@ -537,5 +568,6 @@ def cases(tier):
                         timeout_ms=60000, portfolio=True, budget_s=400 if not th else 1500, nsamples=2))
     out.append(Case('nff_tables_ordered', None, custom=_tables_ordered_case))
     out.append(Case('nff_table_nodes_ground', None, custom=_nodes_ground_case))
+    out.append(Case('f0_api_ground', None, custom=_f0_api_case))
     out.append(Case('f0_symbol_resolution_crosshair', None, custom=_f0_crosshair, budget_s=500 if th else 200))
     return out
